@@ -380,19 +380,28 @@ impl Primitive {
 
 /// Try to parse multiple primitives from the concatenation of their name prefixes
 pub fn split_name(name: &str) -> Option<Vec<(PrimComponent, &str)>> {
-    if let Some(no_exclam) = name.strip_suffix('!')
-        && !no_exclam.is_empty()
-    {
-        let mut comps = split_name(no_exclam)?;
-        let (last_prim, last_name) = &mut comps.last_mut().unwrap();
-        if let PrimComponent::Prim(prim) = last_prim
+    // A trailing `!` belongs to the last primitive if that primitive has no glyph.
+    // Start from the shortest non-empty prefix that is followed only by `!`s
+    // and add the `!`s back one at a time. This is a loop rather than a recursion
+    // so that a long run of `!`s cannot overflow the native stack.
+    let base_len = name.trim_end_matches('!').len().max(name.len().min(1));
+    let mut comps = split_name_no_exclam(&name[..base_len])?;
+    for end in base_len + 1..=name.len() {
+        let name = &name[..end];
+        if let Some((last_prim, last_name)) = comps.last_mut()
+            && let PrimComponent::Prim(prim) = last_prim
             && prim.glyph().is_none()
         {
             *last_name = &name[name.len() - last_name.len() - 1..];
             *last_prim = PrimComponent::PrimExclam(*prim);
-            return Some(comps);
+        } else {
+            comps = split_name_no_exclam(name)?;
         }
     }
+    Some(comps)
+}
+
+fn split_name_no_exclam(name: &str) -> Option<Vec<(PrimComponent, &str)>> {
     let indices: Vec<usize> = (name.char_indices().map(|(i, _)| i))
         .chain([name.len()])
         .collect();
